@@ -64,6 +64,15 @@ fn gen_project(rng: &mut Rng, fenced: &BTreeSet<String>, builtins: &BTreeSet<Str
         paths[i] = format!("{parent}{stem}/{}", base(&paths[i]));
         paths[j] = format!("{parent}{longer}/{}", base(&paths[j]));
     }
+    // the adjustments above must not make two files one
+    for i in 0..paths.len() {
+        while paths[..i].contains(&paths[i]) {
+            let p = std::path::Path::new(&paths[i]);
+            let stem = p.file_stem().unwrap().to_string_lossy().into_owned();
+            let dir = p.parent().map(|d| d.to_string_lossy().into_owned()).unwrap_or_default();
+            paths[i] = if dir.is_empty() { format!("{stem}_{i}.mamba") } else { format!("{dir}/{stem}_{i}.mamba") };
+        }
+    }
     let mut files = vec![];
     let mut xfaults: Vec<Option<String>> = vec![];
     {
